@@ -669,6 +669,9 @@ def run(ctx):
     _, changed, k = gen_c03.generate()
     if changed:
         ctx.note("Gen/C03_Constants.v changed: the live registry/constants differ from the last run")
+    if k.get("literals_error"):
+        ctx.note("literals of dump()/_write_fileobject could not be read off the source (%s); the documented values are used "
+                 "and the behavioural tie decides" % k["literals_error"])
     # 2. proofs
     proofs_ok = ctx.standard_proof_stage("C03", search=lambda: search_failing(ctx, k))
     # 3. correspondence: resolve on the full finite domain
@@ -836,6 +839,13 @@ def run(ctx):
             if i % 4 == 3:       # joblib's own file objects as dump TARGETS, loaded back through every route
                 np_cases[-1].update(target=["zlibfile", "gzipfile"][(i // 4) % 2], form=0,
                                     load_via=["path", "fileobj", "jfile"][(i // 8) % 3])
+        # item sizes around BUFFER_SIZE (just below, equal, just above, several times): one read per item
+        bs = k["buffer_size"]
+        for dt in ("V%d" % (bs - 1), "V%d" % bs, "V%d" % (bs + 1), "S%d" % (bs + 37856), "<U%d" % (bs // 4 + 4464), "V%d" % (3 * bs)):
+            np_cases.append({"mode": "array", "seed": ctx.rng.randrange(10 ** 9), "dtype": dt, "shape": [ctx.rng.choice([1, 2, 3])],
+                             "layout": "C", "target": ctx.rng.choice(["path", "raw", "bytesio"]),
+                             "form": ctx.rng.choice([0, 0, ["zlib", 1], "gzip"]), "proto": None, "filler": ctx.rng.choice([0, 9]),
+                             "nested": False, "ensure_native": "auto", "load_via": ctx.rng.choice(["path", "fileobj"])})
         for dt in ("<f8", ">i4", "u1"):
             for tgt in ("zlibfile", "gzipfile"):
                 for via in ("path", "fileobj", "jfile"):
@@ -884,6 +894,12 @@ def run(ctx):
                           {"kind": "correspondence", "first_disagreement": disagreements[0],
                            "correspondence": "Model/Persist.v resolve/detect vs numpy_pickle.dump / _detect_compressor"},
                           found_input=False)
+    if k.get("literals_error") and not ctx.violations:
+        # the regenerated part of the model could not be read off the source and no behavioural stage found a failing
+        # input: the property is no longer SHOWN to hold for this source
+        ctx.violation("source tie lost: %s" % k["literals_error"],
+                      {"kind": "translator", "correspondence": "harness/gen_c03.py source_literals (dump / _write_fileobject literals) -> Gen/C03_Constants.v",
+                       "detail": k["literals_error"]}, found_input=False)
     ctx.finish({
         "evaluations": len(rcases) + len(rt) + 2 * 65536 + 75 * len(mat) + len(np_cases),
         "load_dispatch_combinations": 75 * len(mat),
